@@ -49,7 +49,7 @@ def gen(seed, tier):
     for _ in range(150 if not thorough else 3000):
         ndev = r.choice([1, 1, 2, 3, 9])
         q = r.choice([0, 1, 2, 2, 3, 4, 7, 40])
-        cfg = 'NODE mode=%d ndev=%d src=%d q=%d t0=%d %s' % (r.choice([1, 2, 4]), ndev, r.choice([0, 30, 200]), q, r.choice([5000, 4294967000]),
+        cfg = 'NODE mode=%d ndev=%d src=%d q=%d t0=%d%s %s' % (r.choice([1, 2, 4]), ndev, r.choice([0, 30, 200]), q, r.choice([5000, 4294967000]), r.choice(['', '', ' early=1']),
                                                             ' '.join('tx%d=%s' % (i, ','.join(map(str, FAST))) for i in range(ndev)))
         ops = []
         for _k in range(r.randint(5, 40)):
@@ -67,8 +67,9 @@ def gen(seed, tier):
         cases.append(cfg + ' | ' + ' ; '.join(ops))
     # large queues (7..9 devices x 40, or an explicit size above 256 / near the uint16_t range): more than 256 frames queued under a long
     # refusal, then drained - the ring indices are 16 bit wide in the code
-    for ndev, q, nmsg in ([(7, 40, 9), (1, 300, 10)] + ([(9, 40, 12), (1, 1000, 33), (1, 65535, 40), (2, 20000, 60)] if thorough else [])):
-        cfg = 'NODE mode=1 ndev=%d src=30 q=%d t0=5000 %s' % (ndev, q, ' '.join('tx%d=%s' % (i, ','.join(map(str, FAST))) for i in range(ndev)))
+    # early=1: Open() is the first call that creates the device table (the ring must be allocated with the size it is used with)
+    for ndev, q, nmsg, early in ([(7, 40, 9, 0), (1, 300, 10, 0), (2, 40, 3, 1), (3, 5, 2, 1), (9, 2, 2, 1)] + ([(9, 40, 12, 0), (1, 1000, 33, 0), (1, 65535, 40, 0), (2, 20000, 60, 0), (9, 40, 12, 1)] if thorough else [])):
+        cfg = 'NODE mode=1 ndev=%d src=30 q=%d t0=5000%s %s' % (ndev, q, ' early=1' if early else '', ' '.join('tx%d=%s' % (i, ','.join(map(str, FAST))) for i in range(ndev)))
         ops = ['A ' + '0' * (nmsg * 33 + 50)]
         for k in range(nmsg):
             ops.append(smsg(r, k % ndev, r.choice(FAST), r.choice([223, 223, 200, 150])))
